@@ -169,11 +169,20 @@ fn tree_listing(after: &Snap, dest: &[u8]) -> String {
 }
 
 /// run `pkg.extract(dest)` chrooted into `root` in a forked child; returns ok / err / panic / crash
-fn extract_in_jail(pkg: &rpm::Package, root: &Path, dest: &[u8]) -> &'static str {
+fn extract_in_jail(pkg: &rpm::Package, root: &Path, dest: &[u8], via: &str) -> &'static str {
     let croot = CString::new(root.as_os_str().as_bytes()).unwrap();
     let cslash = CString::new("/").unwrap();
     let cnull = CString::new("/dev/null").unwrap();
-    let dest_path = PathBuf::from(std::ffi::OsStr::from_bytes(dest));
+    // how the caller SPELLS the destination (the directory meant is always `dest`, the process sits in "/"):
+    //   abs     /target            rel    target             dotdot  /work/../target
+    //   link    /work/zzroot/target   (the jail holds the symbolic link /work/zzroot -> /)
+    let spelled: Vec<u8> = match via {
+        "rel" => dest[1..].to_vec(),
+        "dotdot" => [b"/work/..".as_slice(), dest].concat(),
+        "link" => [b"/work/zzroot".as_slice(), dest].concat(),
+        _ => dest.to_vec(),
+    };
+    let dest_path = PathBuf::from(std::ffi::OsStr::from_bytes(&spelled));
     let mut fds = [0 as libc::c_int; 2];
     unsafe {
         if libc::pipe(fds.as_mut_ptr()) != 0 {
@@ -226,7 +235,7 @@ fn extract_in_jail(pkg: &rpm::Package, root: &Path, dest: &[u8]) -> &'static str
     }
 }
 
-fn observe(pkg_bytes: &[u8], dest: &[u8], jail: &[(Vec<u8>, JEnt)]) -> String {
+fn observe(pkg_bytes: &[u8], dest: &[u8], jail: &[(Vec<u8>, JEnt)], via: &str) -> String {
     let pkg = match rpm::Package::parse(&mut &pkg_bytes[..]) {
         Ok(p) => p,
         Err(_) => return "parse-err".into(),
@@ -239,7 +248,7 @@ fn observe(pkg_bytes: &[u8], dest: &[u8], jail: &[(Vec<u8>, JEnt)]) -> String {
         Err(_) => return "jail-err".into(),
     };
     let before = snapshot(&root);
-    let out = extract_in_jail(&pkg, &root, dest);
+    let out = extract_in_jail(&pkg, &root, dest, via);
     let after = snapshot(&root);
     // restore permissions so that removal cannot fail, then remove the jail
     for (p, e) in &after {
@@ -254,14 +263,21 @@ fn observe(pkg_bytes: &[u8], dest: &[u8], jail: &[(Vec<u8>, JEnt)]) -> String {
 pub fn eval(op: &str, a: &[&str]) -> Option<String> {
     match op {
         "extract" => {
-            if a.len() != 4 {
+            if a.len() != 4 && a.len() != 5 {
                 return Some("bad-request".into());
             }
+            let via = match a.get(4) {
+                None => "abs",
+                Some(v) => match v.strip_prefix("via=") {
+                    Some(x) if ["abs", "rel", "dotdot", "link"].contains(&x) => x,
+                    _ => return Some("bad-request".into()),
+                },
+            };
             let jail = match parse_jail(a[3]) {
                 Some(j) => j,
                 None => return Some("bad-request".into()),
             };
-            Some(observe(&arg_bytes(a[0]), &unhx(a[2]), &jail))
+            Some(observe(&arg_bytes(a[0]), &unhx(a[2]), &jail, via))
         }
         _ => None,
     }
@@ -737,6 +753,20 @@ pub fn gen(ctx: &mut Ctx) {
             let mut twin = spec.clone();
             twin.named = !spec.named;
             ctx.req(&request(&hostile_pkg(&twin), None, "/target", &jail));
+        }
+        // the same destination spelled differently by the caller: relative, through "..", through a symbolic link of
+        // the caller's (the containment checks must not depend on the spelling)
+        let mut jl = jail.clone();
+        jl.push((b("/work/zzroot"), JEnt::Link(b("/"))));
+        for (fi, (_, spec)) in hostile_families().into_iter().enumerate() {
+            for (vi, via) in ["rel", "dotdot", "link"].iter().enumerate() {
+                if !ctx.thorough && (fi + vi) % 3 != 0 { continue; }
+                let j = if *via == "link" { &jl } else { &jail };
+                ctx.req(&format!("{} via={}", request(&hostile_pkg(&spec), None, "/target", j), via));
+                let mut twin = spec.clone();
+                twin.named = !spec.named;
+                ctx.req(&format!("{} via={}", request(&hostile_pkg(&twin), None, "/target", j), via));
+            }
         }
         // jail variants: the destination exists already / has no parent / is nested
         let benign = hostile_pkg(&hs(&["/", "/a/"], vec![hf(0, "f", REG | 0o644, "", "hello"), hf(1, "g", REG | 0o755, "", "world")]));
